@@ -316,16 +316,36 @@ func genApi() {
 							types = append(types, fmt.Sprintf("mk_type %s %s %s %s %s",
 								coqBytes(p.id), coqBytes(ts.Name.Name), coqBool(ts.Name.IsExported()), form, shape))
 						}
-					case token.VAR:
+					case token.VAR, token.CONST:
+						// constants are listed with the variables (a typed constant carries its type; the type of
+						// a group member without one is that of the previous typed member: iota groups)
+						var lastType ast.Expr
 						for _, sp := range x.Specs {
 							vs := sp.(*ast.ValueSpec)
-							for _, n := range vs.Names {
+							if vs.Type != nil {
+								lastType = vs.Type
+							} else if len(vs.Values) > 0 || x.Tok == token.VAR {
+								lastType = nil
+							}
+							for i, n := range vs.Names {
 								if !n.IsExported() {
 									continue
 								}
 								t := fmt.Sprintf("TOther %s", coqBytes("<inferred>"))
 								if vs.Type != nil {
 									t = s.texpr(f, vs.Type)
+								} else if x.Tok == token.CONST && lastType != nil && len(vs.Values) == 0 {
+									t = s.texpr(f, lastType)
+								} else if lit, ok := litOf(vs.Values, i); ok && x.Tok == token.CONST {
+									// an untyped constant with a literal value: its default type
+									t = fmt.Sprintf("TName %s %s", coqBytes(""), coqBytes(map[token.Token]string{token.STRING: "string", token.INT: "int", token.FLOAT: "float64", token.CHAR: "rune", token.IMAG: "complex128"}[lit.Kind]))
+								} else if i < len(vs.Values) {
+									// T(x): a conversion (or call) names its type
+									if call, ok := vs.Values[i].(*ast.CallExpr); ok && len(call.Args) == 1 {
+										if id, ok := call.Fun.(*ast.Ident); ok {
+											t = s.texpr(f, id)
+										}
+									}
 								}
 								vars = append(vars, fmt.Sprintf("mk_var %s %s (%s)", coqBytes(p.id), coqBytes(n.Name), t))
 							}
@@ -342,11 +362,20 @@ func genApi() {
 	fmt.Fprintf(&b, "Definition gen_funcs : list api_func :=\n  %s.\n\n", coqList(funcs, "  "))
 	b.WriteString("(* every type declaration of the two packages *)\n")
 	fmt.Fprintf(&b, "Definition gen_types : list api_type :=\n  %s.\n\n", coqList(types, "  "))
-	b.WriteString("(* exported package-level variables *)\n")
+	b.WriteString("(* exported package-level variables and constants *)\n")
 	fmt.Fprintf(&b, "Definition gen_vars : list api_var :=\n  %s.\n\n", coqList(vars, "  "))
 	for _, w := range s.why {
 		fmt.Fprintf(&b, "(* NOT TRANSLATED: %s *)\n", cmt(w))
 	}
 	fmt.Fprintf(&b, "Definition translated_api : bool := %s.\n", coqBool(s.ok))
 	writeIfChanged("GenApi.v", b.Bytes())
+}
+
+// litOf returns the i-th value when it is a basic literal.
+func litOf(vals []ast.Expr, i int) (*ast.BasicLit, bool) {
+	if i >= len(vals) {
+		return nil, false
+	}
+	l, ok := vals[i].(*ast.BasicLit)
+	return l, ok
 }
